@@ -995,6 +995,10 @@ class TestResult(unittest.TestResult):
             self._restoreStdStreams()
         unittest.TestResult.addSkip(self, test, reason)
         self.options.output.test_skipped(test, reason)
+        # A test skipped from ``setUp`` or its body still runs ``tearDown``
+        # and its cleanups; what they write is the output of a skipped
+        # test (dropped in ``stopTest``).
+        self._setUpStdStreams()
 
     def addSubTest(self, test, subtest, exc_info):
         if exc_info is None:
@@ -1081,6 +1085,10 @@ class TestResult(unittest.TestResult):
             self.stop()
 
     def stopTest(self, test):
+        # Whatever happened to the test (a skip followed by ``tearDown``
+        # output, KeyboardInterrupt, ...), the standard streams are the
+        # original ones again from here on.
+        self._restoreStdStreams()
         self.testTearDown()
         # Without clearing, cyclic garbage referenced by the test
         # would be reported in the following test.
